@@ -328,6 +328,7 @@ func ruleC10(w *World, r *Report) {
 	r.withRule("R10.10", func() { ruleC01Reader(w, r) })
 	// R10.11: two associations never draw the same local SEIDs — ending one would delete the other's rules and addresses (C06 R06.7)
 	r.withRule("R10.11", func() { ruleC06SeidEntropy(w, r) })
+	ruleC12HbSignal(w, r, w.Fn(P, "pfcpiface.(*PFCPConn).handleHeartbeatRequest"), "R10.12")
 	ruleC10Triggers(w, r)
 	ruleC10Forget(w, r)
 	ruleC10Stop(w, r)
